@@ -661,6 +661,10 @@ class ConvexPolyhedron(Polyhedron):
 
         """
         _, principal_axes = np.linalg.eigh(self.inertia_tensor)
+        if np.linalg.det(principal_axes) < 0:
+            # eigh only promises an orthogonal matrix; keep the rotation proper so
+            # that the shape is reoriented rather than mirrored.
+            principal_axes[:, 0] *= -1
         self._vertices = np.dot(self._vertices, principal_axes)
         self._sort_simplices()
 
